@@ -65,12 +65,16 @@ func (a *Activation) call(st *State, ins *ssa.Call, cc *ssa.CallCommon, pos toke
 		spec = g.eng.specs.funcs[funcKey(callee)]
 	}
 	// 2. contract
-	if spec != nil && !spec.Inline && (len(spec.Ensures) > 0 || len(spec.Requires) > 0 || spec.HasMod || len(spec.Ghost) > 0) {
+	inlineAll := false
+	if o := a.owner(); o.spec != nil && o.spec.Tags["inline-calls"] {
+		inlineAll = callee.Blocks != nil && (spec == nil || !spec.Trusted)
+	}
+	if spec != nil && !spec.Inline && !inlineAll && (len(spec.Ensures) > 0 || len(spec.Requires) > 0 || spec.HasMod || len(spec.Ghost) > 0) {
 		setRes(a.contractCall(st, callee, spec, args, bindings, resT, pos))
 		return
 	}
 	// 3. inline
-	if callee.Blocks != nil && a.depth < maxInlineDepth && g.inlinable(callee, spec) {
+	if callee.Blocks != nil && a.depth < maxInlineDepth && (g.inlinable(callee, spec) || (inlineAll && callee.Pkg != nil && strings.HasPrefix(callee.Pkg.Pkg.Path(), modPath))) {
 		setRes(a.inlineCall(st, callee, args, bindings, resT, pos))
 		return
 	}
@@ -158,7 +162,10 @@ func (a *Activation) inlineCall(st *State, callee *ssa.Function, args []Val, bin
 	entry := st.clone()
 	sub.entry = entry
 	work := st.clone()
+	savedChain := g.callChain
+	g.callChain = g.callChain + " <- " + g.eng.pos(pos)
 	sub.run(work)
+	g.callChain = savedChain
 	if len(sub.rets) == 0 {
 		// callee never returns normally (panics / infinite loop)
 		st.pc = tFalse
@@ -318,12 +325,16 @@ func (a *Activation) appendSlice(st *State, s, more Term, sT, moreT types.Type, 
 	}
 	m := map[string]bool{}
 	g.leafSorts(elemT, m)
-	if len(m) != 1 {
-		g.note("append of multi-field elements: heaps havocked, result unconstrained except length")
+	fields := flatFields(g, elemT)
+	if fields == nil {
+		g.note("append of nested-struct elements: heaps havocked, result unconstrained except length")
 		g.havocHeapSortsOf(st, elemT)
 		r := a.havocValue(st, sT, "append").T
 		g.assume(st, eq(sLen(r), bvop("bvadd", sLen(s), sLen(more))))
 		return r
+	}
+	if len(fields) > 1 || fields[0].id >= 0 {
+		return a.appendStructs(st, s, more, elemT, fields, pos)
 	}
 	var sortName string
 	for k := range m {
@@ -360,7 +371,41 @@ func (a *Activation) appendSlice(st *State, s, more Term, sT, moreT types.Type, 
 }
 
 func (a *Activation) strEq(st *State, x, y Term) Term {
-	return and(eq(sLen(x), sLen(y)), a.bytesEqContent(st, x, y))
+	g := a.g
+	if _, ok := g.constStringOf(y); ok {
+		return and(eq(sLen(x), sLen(y)), a.bytesEqContent(st, x, y))
+	}
+	if _, ok := g.constStringOf(x); ok {
+		return and(eq(sLen(x), sLen(y)), a.bytesEqContent(st, x, y))
+	}
+	return a.bytesEqual(st, x, y)
+}
+
+// bytesEqual is content equality of two byte slices/strings: a fresh Boolean b with
+//   b  ⇒ len equal ∧ ∀i<len. x[i] = y[i]
+//   ¬b ⇒ len differ ∨ x[w] ≠ y[w] for a witness w < len
+// and, when the ByteSeq abstraction is in use, b ⇔ abs(x) = abs(y).
+func (a *Activation) bytesEqual(st *State, x, y Term) Term {
+	g := a.g
+	if x.S == y.S {
+		return tTrue
+	}
+	g.quantified = true
+	h := g.define("Hq", g.heap(st, bvSort(8)))
+	xN := g.define("sx", x)
+	yN := g.define("sy", y)
+	b := g.fresh("beq", SBool)
+	w := g.fresh("beqw", bvSort(64))
+	at := func(s Term, i string) string {
+		return fmt.Sprintf("(select %s (elem %s (bvadd %s %s)))", h.S, sArr(s).S, sOff(s).S, i)
+	}
+	all := fmt.Sprintf("(forall ((i (_ BitVec 64))) (! (=> (bvult i %s) (= %s %s)) :pattern (%s) :pattern (%s)))", sLen(xN).S, at(xN, "i"), at(yN, "i"), at(xN, "i"), at(yN, "i"))
+	g.assertLine(implies(b, and(eq(sLen(xN), sLen(yN)), T(SBool, all))), b)
+	g.assertLine(implies(not(b), or(not(eq(sLen(xN), sLen(yN))), and(bvcmp("bvult", w, sLen(xN)), not(eq(T(bvSort(8), at(xN, w.S)), T(bvSort(8), at(yN, w.S))))))), b, w)
+	if g.declared["bs_abs"] {
+		g.assertLine(eq(b, eq(g.absBytes(st, xN), g.absBytes(st, yN))), b)
+	}
+	return b
 }
 
 // bytesEqContent: forall i < len(x): x[i] == y[i] (lengths assumed equal by caller context).
